@@ -69,6 +69,7 @@ class Path:
         self.apps = {}  # kind -> [(result var, argument term(s))] of contract-modelled functions
         self.keep = []  # keeps z3 terms alive whose ids are used as keys
         self.solver = None
+        self.witness = None  # concolic witness: a model of the current constraints
         self._nsolver = 0
 
     # fresh names are deterministic per path position so that re-execution
@@ -88,24 +89,37 @@ class Path:
     def constraints(self):
         return self.pc + self.assumes + self.domain
 
-    def _feasible(self, cond):
-        if self.solver is None:
-            self.solver = z3.Solver()
-            self.solver.set("timeout", self.branch_timeout_ms)
+    def _sync(self):
         cs = self.constraints()
-        for c in cs[self._nsolver:]:
-            self.solver.add(c)
+        new = cs[self._nsolver:]
         self._nsolver = len(cs)
-        self.solver.push()
-        self.solver.add(cond)
+        # is the concolic witness still a model of everything?
+        if self.witness is not None and new:
+            for c in new:
+                try:
+                    if not z3.is_true(self.witness.eval(c, model_completion=True)):
+                        self.witness = None
+                        break
+                except z3.Z3Exception:
+                    self.witness = None
+                    break
+
+    def _query(self, cond):
+        """(feasible?, model or None)"""
+        # a fresh solver per query: z3's incremental (push/pop) mode uses a much weaker
+        # arithmetic pipeline (measured: 5 s timeouts vs 0.02 s on the same mixed int/real query)
+        sol = z3.Solver()
+        sol.set("timeout", self.branch_timeout_ms)
+        sol.add(*self.constraints())
+        sol.add(cond)
         t0 = time.time()
-        r = self.solver.check()
+        r = sol.check()
         STATS.solver_s += time.time() - t0
         STATS.branch_queries += 1
-        self.solver.pop()
+        m = sol.model() if str(r) == "sat" else None
         if str(r) == "unknown":
             STATS.unknown += 1
-        return str(r) != "unsat"
+        return str(r) != "unsat", m
 
     def branch(self, cond):
         """Decide a symbolic condition on this path; fork when both sides are feasible."""
@@ -120,8 +134,27 @@ class Path:
             self.decisions.append(d)
             self.pc.append(cond if d else z3.Not(cond))
             return d
-        can_t = self._feasible(cond)
-        can_f = self._feasible(z3.Not(cond))
+        self._sync()
+        ncond = z3.Not(cond)
+        wside = None
+        if self.witness is not None:
+            try:
+                v = self.witness.eval(cond, model_completion=True)
+                wside = True if z3.is_true(v) else (False if z3.is_false(v) else None)
+            except z3.Z3Exception:
+                wside = None
+        models = {}
+        if wside is True:
+            can_t = True
+            models[True] = self.witness
+            can_f, models[False] = self._query(ncond)
+        elif wside is False:
+            can_f = True
+            models[False] = self.witness
+            can_t, models[True] = self._query(cond)
+        else:
+            can_t, models[True] = self._query(cond)
+            can_f, models[False] = self._query(ncond)
         if can_t and can_f:
             self.pending.append(self.decisions + [False])
             d = True
@@ -131,6 +164,7 @@ class Path:
             d = False
         else:
             raise PathAbort("infeasible path")
+        self.witness = models.get(d)
         self.decisions.append(d)
         self.pc.append(cond if d else z3.Not(cond))
         return d
@@ -292,7 +326,6 @@ def _real_term(x):
 # --------------------------------------------------------------------------
 class SBool:
     __slots__ = ("t",)
-    __array_priority__ = 1000
 
     def __init__(self, t):
         self.t = t
@@ -380,7 +413,6 @@ class SReal:
     taken at their exact rational value."""
 
     __slots__ = ("t",)
-    __array_priority__ = 1000
 
     def __init__(self, t):
         self.t = t if isinstance(t, z3.ExprRef) else rv(t)
@@ -543,23 +575,45 @@ class SReal:
         return SReal(z3.If(self.t > 0, z3.RealVal(1), z3.If(self.t < 0, z3.RealVal(-1), z3.RealVal(0))))
 
     def _modk(self, m, floored):
-        """self mod m for a literal positive modulus; returns (r, k)."""
+        """self mod m for a literal positive modulus.
+
+        Contract: floored remainder r = x - m*k, k integer, 0 <= r < m.  Because the floored
+        remainder is m-periodic, whole multiples m*j (j an integer-valued term) are stripped from
+        the argument first and applications with the same stripped argument share (r, k): the
+        remainder of a + m*j is *the same term* as the remainder of a.  The truncated remainder
+        (numpy.fmod) is expressed through the floored one: r if x >= 0 or r == 0 else r - m."""
         mt = z3.simplify(_real_term(m))
         if not z3.is_rational_value(mt) or mt.numerator_as_long() <= 0:
             raise Unsupported("modulus must be a positive literal")
-        p = cur()
-        k = p.new("turn", "int")
-        r = p.new("rem")
-        p.assume(r == self.t - mt * z3.ToReal(k))
-        if floored:
-            p.assume(z3.And(r >= 0, r < mt))
-        else:  # truncated: sign of the dividend
-            p.assume(z3.If(self.t >= 0, z3.And(r >= 0, r < mt), z3.And(r <= 0, r > -mt)))
         mf = Fraction(mt.numerator_as_long(), mt.denominator_as_long())
-        if mf == TWOPI_F:
-            p.trig[("alias", r.get_id())] = self.t
-            p.keep.append(r)
-        return SReal(r)
+        p = cur()
+        atoms, const = _lin(z3.simplify(self.t))
+        whole = z3.IntVal(0)
+        base = rv(const)
+        for _i, (term, c) in sorted(atoms.items()):
+            q = c / mf
+            if q.denominator == 1 and z3.is_app(term) and term.decl().kind() == z3.Z3_OP_TO_REAL:
+                whole = whole + int(q) * term.children()[0]
+            else:
+                base = base + rv(c) * term
+        base = z3.simplify(base)
+        key = ("mod", base.get_id(), str(mf))
+        p.keep.append(base)
+        if key in p.trig:
+            r, k0 = p.trig[key]
+        else:
+            k0 = p.new("turn", "int")
+            r = p.new("rem")
+            p.assume(z3.And(r == base - mt * z3.ToReal(k0), r >= 0, r < mt))
+            p.trig[key] = (r, k0)
+            if mf == TWOPI_F:
+                p.trig[("alias", r.get_id())] = base
+                p.keep.append(r)
+        k = z3.simplify(k0 + whole)
+        p.apps.setdefault("mod", []).append((r, k, self.t, mt))
+        if floored:
+            return SReal(r)
+        return SReal(z3.If(z3.Or(self.t >= 0, r == 0), r, r - mt))
 
     def __mod__(self, m):
         if isinstance(m, np.ndarray) and m.ndim > 0:
@@ -772,6 +826,32 @@ def declare_angle(a, c=None, s=None):
     return ct, st
 
 
+def identify(a, b):
+    """Trusted fact about real angles, instantiated for the pair (a, b):
+    equal cosine and sine  =>  a - b is a whole number of turns."""
+    p = cur()
+    a = a.t if isinstance(a, SReal) else _real_term(a)
+    b = b.t if isinstance(b, SReal) else _real_term(b)
+    ca, sa = trig(a)
+    cb, sb = trig(b)
+    k = p.new("ident", "int")
+    p.assume(z3.Implies(z3.And(ca == cb, sa == sb), a - b == rv(TWOPI_F) * z3.ToReal(k)))
+    return (ca, sa), (cb, sb)
+
+
+def identify_lemma(a, b):
+    """Two-stage use of the same trusted fact: returns (premise, conclusion).  The harness first
+    *proves* the premise (equal cos and sin, a ring identity) and then uses the conclusion
+    (a - b is a whole number of turns) as a lemma for the linear part."""
+    p = cur()
+    a = a.t if isinstance(a, SReal) else _real_term(a)
+    b = b.t if isinstance(b, SReal) else _real_term(b)
+    ca, sa = trig(a)
+    cb, sb = trig(b)
+    k = p.new("ident", "int")
+    return z3.And(ca == cb, sa == sb), a - b == rv(TWOPI_F) * z3.ToReal(k)
+
+
 def trig(t):
     """(cos t, sin t) as z3 terms, by the addition formulas over the linear
     structure of t: integer multiples of atoms plus a multiple of pi/2."""
@@ -782,6 +862,10 @@ def trig(t):
     if key in p.trig:
         return p.trig[key]
     atoms, const = _lin(ts)
+    # whole turns: 2*pi*j with j an integer-valued term do not change (cos, sin)
+    for i, (term, k) in list(atoms.items()):
+        if z3.is_app(term) and term.decl().kind() == z3.Z3_OP_TO_REAL and (k / TWOPI_F).denominator == 1:
+            del atoms[i]
     q = const / (PI_F / 2)
     ok = q.denominator == 1 and all(v[1].denominator == 1 and abs(v[1]) <= 8 for v in atoms.values())
     if not ok:
@@ -815,7 +899,6 @@ def trig(t):
 # --------------------------------------------------------------------------
 class SInt:
     __slots__ = ("t",)
-    __array_priority__ = 1000
 
     def __init__(self, t):
         self.t = t if isinstance(t, z3.ExprRef) else z3.IntVal(int(t))
@@ -1124,6 +1207,29 @@ def solve(constraints, timeout_ms=30000, tactic=None):
         return Verdict("unsat", None, dt)
     STATS.unknown += 1
     return Verdict("unknown", None, dt, s.reason_unknown())
+
+
+def free_vars(t):
+    seen, out, stack = set(), set(), [t]
+    while stack:
+        e = stack.pop()
+        i = e.get_id()
+        if i in seen:
+            continue
+        seen.add(i)
+        if z3.is_const(e) and e.decl().kind() == z3.Z3_OP_UNINTERPRETED:
+            out.add(str(e))
+        else:
+            stack.extend(e.children())
+    return out
+
+
+def slice_for(goal, constraints):
+    """Constraint slicing: keep only the constraints all of whose variables occur in the goal.
+    Dropping constraints is sound for proving (unsat stays valid); a sat answer from a sliced
+    query is only a candidate."""
+    V = free_vars(goal)
+    return [c for c in constraints if free_vars(c) <= V]
 
 
 def refute(goal, constraints, timeout_ms=30000, tactic=None):
